@@ -50,7 +50,10 @@ def build(tier, seed):
             t = F.PRELUDE_C + (STUBS if units else '') + F.ext_models(unit) + 'void h_%s(void)\n{\n' % k
             args = []
             for i, (ct, pn) in enumerate(cps):
-                t += ('  %s %s = NEWZ(%s);      /* a freshly constructed Lexicon */\n' % (ct, pn, ct[:-1].strip())) if i == 0 and 'Lexicon' in ct else F.operand_decl(ct, pn, i)
+                if pn == 'v_kind' and ct == 'int':
+                    t += '  int v_kind; { int t_k; v_kind = t_k; } __CPROVER_assume(0 <= v_kind && v_kind <= 5);      /* which kind of region the construct is created in */\n'
+                else:
+                    t += ('  %s %s = NEWZ(%s);      /* a freshly constructed Lexicon */\n' % (ct, pn, ct[:-1].strip())) if i == 0 and 'Lexicon' in ct else F.operand_decl(ct, pn, i)
                 args.append(pn)
             t += '  unsigned bad = %s(%s);\n' % (cname, ', '.join(args))
             cl = CLAUSES[k]
